@@ -759,8 +759,15 @@ int main(int argc, char **argv) {
 
     // Handle .s
     if (type == FILE_ASM) {
-      if (!opt_S)
+      if (opt_S)
+        continue;
+      if (opt_c) {
         assemble(input, output);
+        continue;
+      }
+      char *tmp = create_tmpfile();
+      assemble(input, tmp);
+      strarray_push(&ld_args, tmp);
       continue;
     }
 
